@@ -330,3 +330,11 @@ PROPS["C17"] = {
     "rule": "random schema-aware documents x a family of probe transformers: the identity (nothing rewritten), one hook at a time (11 hooks: definition, operation, fragment, selection set, field, fragment spread, inline fragment, directive, argument, value, variable definition), random hook combinations and all hooks, each hook logging every call and rewriting a pseudo-randomly chosen subset of its nodes in a recognisable way (moduli 1..3, offsets 0..6); plus ALL 127 Keep/Replace patterns over selection lists of length 0..6 (exhaustive). Compared: the call log (kind and identity of every hook call, in order), keep/replace of the result, and the complete resulting document (names, aliases, positions, type conditions, list orders and lengths) against the extracted model. distinct = distinct (document, probe); non-trivial = the probe rewrites something (result is a replacement) and at least 10 hook calls",
     "nontrivial": c17_nontrivial,
 }
+
+
+def no_bad_lines(il):
+    return not any(l.endswith(" BAD") or l == "PANIC" for l in il)
+
+
+for _pid in ("C13", "C12"):
+    PROPS[_pid]["impl_oracle"] = no_bad_lines
